@@ -527,7 +527,23 @@ def _angof(a: SV):
         return a.A
     if a.t is None and not isinstance(a.c, float) and a.c == 0:
         return Ang({}, Fr(0))
+    if a.t is None and not isinstance(a.c, float) and a.kind == "R" and Ctx.current is not None and abs(a.c) <= 7:
+        # a concrete angle (radians): a constant primitive with interval-enclosed sine and cosine
+        p = _const_prim(a.c)
+        return Ang({id(p): (p, Fr(1))}, Fr(0))
     return None
+
+
+def _const_prim(c: Fr):
+    C = ctx()
+    key = ("constprim", c)
+    if key not in C.consts:
+        s, co = C.fresh("sinc", val=math.sin(float(c))), C.fresh("cosc", val=math.cos(float(c)))
+        (sl, sh), (cl, ch) = enclosure("sin", c), enclosure("cos", c)
+        C.fact(s * s + co * co == 1, s >= rv(sl), s <= rv(sh), co >= rv(cl), co <= rv(ch))
+        C.consts[key] = new_prim(rv(c), s, co, "const")
+        C.consts[("sc", c)] = (s, co)
+    return C.consts[key]
 
 
 def _neg(a: SV) -> SV:
